@@ -182,15 +182,11 @@ index_entry_to_packed!(c08_index_entry_to_packed_id256, 256);
 index_entry_to_packed!(c08_index_entry_to_packed_id1023, 1023);
 // @end
 
-// Out of the documented range: IndexEntry::new accepts any u16 id; the encoder refuses ids above
-// 1023 (see c08_index_entry_fields_round_trip) but to_packed swallows that error, prints a warning
-// and returns 18 zero bytes (an "empty" record that the loader silently skips).
-// @harness prop=C08 tier=quick timeout=900 role=index-entry-id-out-of-range
-// @bounds archive_id = 1024 (first id outside the 10-bit range), key (first byte non-zero), offset, size symbolic
-// @encodes cascette_client_storage::index::IndexEntry::to_packed, cascette_client_storage::index::write_archive_location
-// @assumes std::fmt::format -> empty string, std::io::_eprint -> no-op
-// @catches (known finding, outside the documented 10-bit range) to_packed swallows the encoder error and emits an all-zero record
-index_entry_to_packed!(c08_index_entry_to_packed_id1024_out_of_range, 1024);
+// Out of the documented range (not a harness: with a failing encoder to_packed drops a binrw::Error,
+// whose recursive drop glue does not finish in CBMC — measured: timeout 900 s even for the concrete
+// id 1024): IndexEntry::new accepts any u16 id; the encoder refuses ids above 1023 (proved in
+// c08_index_entry_fields_round_trip), to_packed swallows that error, prints a warning and returns
+// 18 zero bytes, i.e. an "empty" record that the loader silently skips.
 
 // ---- IndexHeaderV2 / GuardedBlockHeader -----------------------------------------------------------
 // @harness prop=C08 tier=quick timeout=900 role=index-header-v2
